@@ -223,7 +223,20 @@ def after_complete_step(p0: int, p1: int, p2: int, t: int, inside: bool, n_adv: 
         elif req == 'execute_systems':
             m.systems.execute_systems()
         elif req == 'execute_systems_strict':
-            m.systems.execute_systems(True)
+            # "when asked to": the flag is a truth value - True, or what a configuration / a numpy reduction yields
+            fl = hx.P.get('flag', 'True')
+            if fl == 'True':
+                m.systems.execute_systems(True)
+            elif fl == 'kw':
+                m.systems.execute_systems(throw_error=True)
+            elif fl == 'one':
+                m.systems.execute_systems(1)
+            else:
+                import numpy
+                m.systems.execute_systems(throw_error=numpy.bool_(True))
+        elif req == 'execute_systems_lenient':
+            import numpy
+            m.systems.execute_systems(throw_error=(0 if hx.P.get('flag') == 'zero' else numpy.bool_(False)))
         elif req == 'add_system':
             m.systems.add_system(S("late", m, pnew))
             m.execute()
@@ -404,6 +417,8 @@ def obligations(tier):
           labels=("steps_skipped",), timeout=600, encoded=enc, bounds={"n": "1..3", "k": "2..%d" % (3 if tier == "quick" else 5)}),
         X("after_complete_step", after_complete_step, parts=[{"n": n, "req": r} for n in ((0, 2, 3) if tier == "quick" else (0, 1, 2, 3)) for r in reqs] +
           [{"n": 2, "req": r, "warnings_as_errors": True} for r in ("execute", "execute_systems", "execute_systems_strict")] +
+          [{"n": 2, "req": "execute_systems_strict", "flag": f} for f in ("kw", "one", "npbool")] +
+          [{"n": 2, "req": "execute_systems_lenient", "flag": f} for f in ("zero", "npfalse")] +
           [{"n": 2, "req": r, "interrupted": w} for w in ("first", "last") for r in ("execute", "execute_n", "execute_systems", "execute_systems_strict")],
           labels=("completed_inside", "completed_outside"),
           labels_for=lambda p: ("completed_inside", "completed_outside") if p["n"] else ("completed_outside",),
